@@ -140,23 +140,23 @@ PlanHistory == << [kind |-> "sl", C |-> 1, n |-> 1, stride |-> 1], [kind |-> "ml
 PlanQuick ==
     << [kind |-> "sl", C |-> 1, n |-> 1, stride |-> 1], [kind |-> "sl", C |-> 1, n |-> 2, stride |-> 1],
        [kind |-> "sl", C |-> 1, n |-> 3, stride |-> 4],
-       [kind |-> "sl", C |-> 2, n |-> 1, stride |-> 1], [kind |-> "sl", C |-> 2, n |-> 2, stride |-> 8],
-       [kind |-> "sl", C |-> 2, n |-> 3, stride |-> 128],
-       [kind |-> "sl", C |-> 3, n |-> 1, stride |-> 1], [kind |-> "sl", C |-> 3, n |-> 2, stride |-> 64],
+       [kind |-> "sl", C |-> 2, n |-> 1, stride |-> 1], [kind |-> "sl", C |-> 2, n |-> 2, stride |-> 16],
+       [kind |-> "sl", C |-> 2, n |-> 3, stride |-> 256],
+       [kind |-> "sl", C |-> 3, n |-> 1, stride |-> 1], [kind |-> "sl", C |-> 3, n |-> 2, stride |-> 128],
        [kind |-> "ml", C |-> 1, n |-> 1, stride |-> 1], [kind |-> "ml", C |-> 1, n |-> 2, stride |-> 1],
-       [kind |-> "ml", C |-> 2, n |-> 1, stride |-> 1], [kind |-> "ml", C |-> 2, n |-> 2, stride |-> 32],
-       [kind |-> "ml", C |-> 2, n |-> 3, stride |-> 1024],
-       [kind |-> "ml", C |-> 3, n |-> 1, stride |-> 8], [kind |-> "ml", C |-> 3, n |-> 2, stride |-> 4096] >>
+       [kind |-> "ml", C |-> 2, n |-> 1, stride |-> 1], [kind |-> "ml", C |-> 2, n |-> 2, stride |-> 64],
+       [kind |-> "ml", C |-> 2, n |-> 3, stride |-> 2048],
+       [kind |-> "ml", C |-> 3, n |-> 1, stride |-> 8], [kind |-> "ml", C |-> 3, n |-> 2, stride |-> 8192] >>
 PlanThorough ==
     << [kind |-> "sl", C |-> 1, n |-> 1, stride |-> 1], [kind |-> "sl", C |-> 1, n |-> 2, stride |-> 1],
        [kind |-> "sl", C |-> 1, n |-> 3, stride |-> 1],
        [kind |-> "sl", C |-> 2, n |-> 1, stride |-> 1], [kind |-> "sl", C |-> 2, n |-> 2, stride |-> 1],
-       [kind |-> "cc", C |-> 2, n |-> 3, stride |-> 3],
+       [kind |-> "cc", C |-> 2, n |-> 3, stride |-> 4],
        [kind |-> "sec", C |-> 2, n |-> 3, stride |-> 8], [kind |-> "sed", C |-> 2, n |-> 3, stride |-> 8],
-       [kind |-> "sl", C |-> 3, n |-> 1, stride |-> 1], [kind |-> "sl", C |-> 3, n |-> 2, stride |-> 6],
+       [kind |-> "sl", C |-> 3, n |-> 1, stride |-> 1], [kind |-> "sl", C |-> 3, n |-> 2, stride |-> 8],
        [kind |-> "ml", C |-> 1, n |-> 1, stride |-> 1], [kind |-> "ml", C |-> 1, n |-> 2, stride |-> 1],
        [kind |-> "ml", C |-> 1, n |-> 3, stride |-> 1],
-       [kind |-> "ml", C |-> 2, n |-> 1, stride |-> 1], [kind |-> "ml", C |-> 2, n |-> 2, stride |-> 1],
+       [kind |-> "ml", C |-> 2, n |-> 1, stride |-> 1], [kind |-> "ml", C |-> 2, n |-> 2, stride |-> 2],
        [kind |-> "ml", C |-> 2, n |-> 3, stride |-> 64],
-       [kind |-> "ml", C |-> 3, n |-> 1, stride |-> 1], [kind |-> "ml", C |-> 3, n |-> 2, stride |-> 128] >>
+       [kind |-> "ml", C |-> 3, n |-> 1, stride |-> 1], [kind |-> "ml", C |-> 3, n |-> 2, stride |-> 256] >>
 =============================================================================
